@@ -15,11 +15,13 @@ package tink
 //@ ensures[C16:segment-of-offset] result >= 0 && specSegStart(result, s.css) <= off && off < specSegStart(result+1, s.css)
 
 // The reader accepts exactly the ciphertext lengths tink's writer can produce (a truncated or extended stream whose
-// length is not such a length is rejected up front) and starts with no buffered segment.
+// length is not such a length is rejected up front), accounts for every byte of the stream from base to its end, and
+// starts with no buffered segment.
 //@ func newSeekableDecryptingReader
 //@ arith int
 //@ requires base >= 0 && base <= 1152921504606846976 && ciphertextSegmentSize <= 1073741824
 //@ ensures[C16:layout-valid] err == nil ==> result != nil && result.pos == 0 && result.segIndex == -1 && specReaderInv(result)
+//@ ensures[C16:whole-stream] err == nil ==> result.ciphertextLen == result_of(r.Seek, 0) - base && result.base == base
 
 // loadSegment: on success segment j is the buffered, authenticated segment; on failure the reader is unchanged, so a
 // later Read cannot serve bytes of a segment that failed authentication; a ciphertext stream that ends early is an
